@@ -63,7 +63,11 @@ func c12Stress(c *Ctx, name string, seed int64, auto bool, workers, opsPer int) 
 		}
 	}
 	cache, _ := cdi.NewCache(cdi.WithSpecDirs(dirs...), cdi.WithAutoRefresh(auto))
-	defer cache.Configure(cdi.WithAutoRefresh(false))
+	defer func() {
+		if stuck == "" { // a deadlocked cache cannot be reconfigured (it would hang us too)
+			releaseCache(cache)
+		}
+	}()
 	// watcher-driven refreshes are operations too (recorded through the hook)
 	var wmu sync.Mutex
 	var wrecs []opRec
@@ -420,7 +424,7 @@ func c12Snapshot(cs *Case, auto bool) {
 	}
 	publish(0)
 	cache, _ := cdi.NewCache(cdi.WithSpecDirs(lower, upper), cdi.WithAutoRefresh(auto))
-	defer cache.Configure(cdi.WithAutoRefresh(false))
+	defer releaseCache(cache)
 	var mu sync.Mutex
 	var ops []porcupine.Operation
 	add := func(client int, in c12In, call int64, out int, ret int64) {
@@ -661,7 +665,7 @@ func checkC12(c *Ctx) {
 	must(os.MkdirAll(filepath.Join(defRoot, "run"), 0o755))
 	must(os.WriteFile(filepath.Join(defRoot, "etc", "d.json"), specBytes(genSpec(rand.New(rand.NewSource(1)), SpecGen{Vendor: "vendor.com", Class: "gpu", DevNames: []string{"dev0"}, Plain: true, Marker: "def"}), "json"), 0o644))
 	cdi.DefaultSpecDirs = []string{filepath.Join(defRoot, "etc"), filepath.Join(defRoot, "run")}
-	defer func() { cdi.Configure(cdi.WithAutoRefresh(false)) }()
+	defer func() { releaseCache(cdi.GetDefaultCache()) }()
 	if c.replayCase == "" || strings.HasPrefix(c.replayCase, "stress") || c.replayCase == "race" {
 		runs := c.pick(2, 8)
 		total := map[string]int{}
@@ -681,7 +685,9 @@ func checkC12(c *Ctx) {
 				} else {
 					c.Inconclusive("no-progress")
 				}
-				continue
+				// the stuck goroutines (and possibly the default cache) cannot be recovered:
+				// report what we have and leave
+				os.Exit(c.Finish())
 			}
 			for k, v := range overlaps(recs) {
 				total[k] += v
@@ -709,6 +715,9 @@ func checkC12(c *Ctx) {
 		c.Floor("histories_linearizable", 100)
 		c.Floor("histories_with_overlapping_clients", 100)
 		c.Floor("reads_with_version", 500)
+	}
+	if d := deadlocked.Load(); d != nil {
+		c.violation("cleanup", "deadlock", nil, "Cache.Configure(WithAutoRefresh(false)) never returned (60 s) on a cache that had been used concurrently", map[string]any{"goroutines": clip(*d, 30000)})
 	}
 	// race reports
 	if raceLog != "" {
